@@ -67,7 +67,15 @@ def main():
         if isinstance(det, dict) and any(v == "VIOLATION" for v in det.values()):
             n_det += 1
         out.append("| %s | %s | %s | %s |" % (sid, m["property"], m["needs_to_manifest"].replace("|", "/"), outcome or "not run yet"))
-    out += ["", "%d of %d seeded changes are reported as VIOLATION by the quick check of their property." % (n_det, n_all), "", END]
+    own = 0
+    for sid in sorted(os.listdir(sd)) if os.path.isdir(sd) else []:
+        mp = os.path.join(sd, sid, "meta.json")
+        if os.path.exists(mp):
+            m = json.load(open(mp))
+            if (m.get("detected_by") or {}).get(m["property"]) == "VIOLATION":
+                own += 1
+    out += ["", "%d of %d seeded changes are reported as VIOLATION by a quick check; %d of them by the check of the property they are "
+            "filed under, the others by the property whose code they change (see the `also_run` column entries and DESIGN 0.6)." % (n_det, n_all, own), "", END]
     dp = os.path.join(ROOT, "DESIGN.md")
     s = open(dp).read()
     block = "\n".join(out)
